@@ -110,7 +110,12 @@ def strat_long(tier):
     return dt_cases(_profile(tier, max_depth=3, max_bound=20, nvars=5), max_n=48, min_n=16)
 
 
+def strat_floats(tier):
+    return dt_cases(_profile(tier, var_bound=1e6, max_depth=4), max_n=10)
+
+
 LANES = [
+    Lane('floats', strat_floats, check, 1000, 15000, std_candidates),
     Lane('long', strat_long, check, 300, 5000, std_candidates),
     Lane('main', strat_main, check, 5000, 60000, std_candidates),
     Lane('dup', strat_dup, check, 3000, 30000, std_candidates),
